@@ -974,7 +974,9 @@ func TestVerifC12Recover(t *testing.T) {
 					emit(rec)
 					return
 				}
-				if spec.Deep {
+				// (only when the first manager was quiescent at Close: in one process a job of the CLOSED manager that
+				//  completes later would save its old table with a newer Saved stamp - the real program exits after Close)
+				if spec.Deep && rec.Settled && (spec.Cont == nil || rec.ContDone) {
 					// second, clean restart: what the first one wrote must load again
 					stage = "second manager.New / settling"
 					mgr2, err := New(d["pcap"], d["index"], d["snapshot"], d["state"], d["converter"], d["watch"])
